@@ -145,7 +145,7 @@ func c05Scenarios(tier string) []*world.Scenario {
 	}
 	var out []*world.Scenario
 	const batch = 60
-	for _, kind := range []string{"mget", "del"} {
+	for _, kind := range []string{"mget", "del", "mset"} {
 		for i := 0; i < len(lists); i += batch {
 			j := i + batch
 			if j > len(lists) {
@@ -155,7 +155,14 @@ func c05Scenarios(tier string) []*world.Scenario {
 			sc := &world.Scenario{Nodes: T3m(), Bound: 0, Family: "assigned-slot", Horizon: 1 << 20, InputEnum: true}
 			cs := world.ClientSpec{}
 			for n, l := range part {
-				raw := world.Cmd(append([]string{kind}, l...)...)
+				args := []string{kind}
+				for _, k := range l {
+					args = append(args, k)
+					if kind == "mset" {
+						args = append(args, "v")
+					}
+				}
+				raw := world.Cmd(args...)
 				cs.Chunks = append(cs.Chunks, world.Chunk{Data: raw, WaitReplies: n})
 				cs.Reqs = append(cs.Reqs, raw)
 				cs.Expect = append(cs.Expect, nil)
@@ -164,7 +171,10 @@ func c05Scenarios(tier string) []*world.Scenario {
 			sc.Name = fmt.Sprintf("C05/e1/%s/batch%d(%q ..)", kind, i/batch, part[0])
 			sc.Check = func(w *world.World) []world.Violation {
 				for _, rec := range w.DataCmds("") {
-					for _, k := range rec.Args[1:] {
+					for ai, k := range rec.Args[1:] {
+						if world.Lower(rec.Args[0]) == "mset" && ai%2 == 1 {
+							continue // a value
+						}
 						m := w.Sc.MasterOf(world.SpecSlot(k))
 						if m == nil || m.Addr != rec.Addr {
 							want := "<none>"
@@ -707,6 +717,30 @@ func c19Scenarios(tier string) []*world.Scenario {
 		inner := sc.Check
 		sc.Check = func(w *world.World) []world.Violation {
 			vs := inner(w)
+			for i := range vs {
+				vs[i].Sig = "slow-reader-stream-corrupt"
+			}
+			return vs
+		}
+		out = append(out, sc)
+	}
+	// the write path of LOCAL replies (conn.write, not the vectored one): eight pipelined requests answered by the proxy
+	// itself to a slow reader, every write answer within the bound
+	{
+		var reqs []Req
+		for j := 0; j < 8; j++ {
+			if j%3 == 1 {
+				reqs = append(reqs, UnknownReq())
+			} else {
+				reqs = append(reqs, PingReq())
+			}
+		}
+		cs := ClientOf(reqs, true)
+		cs.Slow = true
+		sc := &world.Scenario{Nodes: T3m(), Bound: b, Horizon: 400, Family: "slow-reader-local-replies", WriteOracle: true, Clients: []world.ClientSpec{cs}}
+		sc.Name = fmt.Sprintf("C19/slow-reader-local-replies/d%d", b)
+		sc.Check = func(w *world.World) []world.Violation {
+			vs := CheckStreams(w, StreamOpts{})
 			for i := range vs {
 				vs[i].Sig = "slow-reader-stream-corrupt"
 			}
